@@ -109,9 +109,48 @@ pub fn run(run: &mut Run) {
             }
         }
     }
+    // a cluster whose primary has moved once (the node that joined last claims the earliest start
+    // time, e.g. because its clock is behind) and whose former primary is still a member: writes
+    // issued on a secondary must still be forwarded once, to the one primary
+    let moved_pids: Vec<u128> = vec![200, 300, 100];
+    let mut moved: Vec<Script> = vec![];
+    for node in [1usize, 0] {
+        for c in if quick { vec!["set k v1", "remove k"] } else { vec!["set k v1", "remove k", "increment c", "create-user bob bt", "set-safe k 0 s0"] } {
+            if quick && node == 0 && c != "set k v1" {
+                continue;
+            }
+            moved.push(Script { ops: vec![(node, c.to_string())] });
+        }
+    }
     let mut total = NetStats::default();
     let mut capped = 0;
     let mut skipped = 0;
+    for sc in moved.iter() {
+        let setup = ClusterSetup { nodes: 3, strategy: "none", init: vec!["set k v0".into(), "set k v0b".into(), "set c 5".into()] };
+        let cfg = NetCfg { max_states: if quick { 40 } else { 30000 }, max_path: 120, budget: Duration::from_secs(if quick { 5 } else { 40 }), workers: if quick { 1 } else { crate::util::workers() }, by_deviations: quick };
+        let mk = || build_pids(&setup, sc, &moved_pids);
+        let on_state = |w: &NetWorld, _p: &[T]| judge(w, false);
+        let on_q = |w: &NetWorld, _p: &[T]| judge(w, true);
+        match explore_net(&mk, &on_state, &on_q, &cfg) {
+            Ok((st, findings)) => {
+                total.states += st.states;
+                total.transitions += st.transitions;
+                total.replays += st.replays;
+                total.quiescent_states += st.quiescent_states;
+                if st.cap.is_some() {
+                    capped += 1;
+                }
+                let name = format!("[3 nodes, none db, primary moved from n1 to n3] {}", sc.name());
+                let cmd = sc.ops[0].1.split(' ').next().unwrap_or("").to_string();
+                report_findings(run, "C14", &name, findings, &|f| format!("{} on a secondary after the primary has moved (none db): {}", cmd, f.detail.split(';').next().unwrap_or("")));
+            }
+            Err(e) => {
+                eprintln!("machinery: NET exploration of {} (moved primary) failed: {}", sc.name(), e);
+                std::process::exit(2);
+            }
+        }
+    }
+    run.cov("scripts_on_a_cluster_whose_primary_moved", json!(moved.len()));
     for (nn, strategy, sc) in plan.iter() {
         if std::time::Instant::now() > deadline {
             skipped += 1;
